@@ -715,7 +715,15 @@ async fn merge(
 /// field NAME or TYPE is not widened — it means the shards ran different
 /// queries, and that is an error, loudly.
 fn unify(batches: Vec<RecordBatch>) -> Result<Vec<RecordBatch>> {
-    let Some(first) = batches.first() else {
+    // The reference schema comes from a batch that carries rows when there is
+    // one: a zero-row placeholder is built from the DECLARED schema of the
+    // shard's query, which can name a wider type than the arrays the engine
+    // actually produces for the same expression.
+    let Some(first) = batches
+        .iter()
+        .find(|b| b.num_rows() > 0)
+        .or(batches.first())
+    else {
         return Ok(batches);
     };
     let unified = Arc::new(arrow::datatypes::Schema::new(
@@ -736,6 +744,18 @@ fn unify(batches: Vec<RecordBatch>) -> Result<Vec<RecordBatch>> {
                 s.fields().len(),
                 unified.fields().len()
             )));
+        }
+        // A rowless placeholder whose column NAMES agree carries no data that
+        // could be mis-typed; it takes the data-bearing schema. A batch with
+        // rows, or any disagreement in names, is still refused.
+        if b.num_rows() == 0
+            && s.fields()
+                .iter()
+                .zip(unified.fields().iter())
+                .all(|(a, e)| a.name() == e.name())
+        {
+            out.push(RecordBatch::new_empty(unified.clone()));
+            continue;
         }
         for (a, e) in s.fields().iter().zip(unified.fields().iter()) {
             if a.name() != e.name() || a.data_type() != e.data_type() {
@@ -1183,6 +1203,22 @@ mod tests {
             // must return (Ok for a flip the format cannot notice, Err otherwise)
             let _ = std::panic::catch_unwind(|| decode_ipc(&bytes).map(|b| b.len()));
         }
+    }
+
+    /// An empty shard ships the declared schema; a shard with rows ships what
+    /// the engine produced. The placeholder must not veto the merge.
+    #[test]
+    fn unify_lets_a_rowless_placeholder_take_the_data_bearing_schema() {
+        use arrow::array::Int32Array;
+        use arrow::datatypes::{DataType, Field, Schema};
+        let declared = Arc::new(Schema::new(vec![Field::new("x", DataType::Int64, true)]));
+        let produced = Arc::new(Schema::new(vec![Field::new("x", DataType::Int32, true)]));
+        let rows =
+            RecordBatch::try_new(produced, vec![Arc::new(Int32Array::from(vec![7]))]).unwrap();
+        let out = unify(vec![RecordBatch::new_empty(declared), rows]).unwrap();
+        assert_eq!(out.len(), 2);
+        assert!(out.iter().all(|b| b.schema().field(0).data_type() == &DataType::Int32));
+        assert_eq!(out.iter().map(|b| b.num_rows()).sum::<usize>(), 1);
     }
 
     #[test]
